@@ -15,7 +15,7 @@ theorem targetOk_elim {B : List Nat} {t : Int} (h : targetOk B t = true) : 0 ≤
 theorem u64_big : 258 ≤ U64 - 2 := by unfold U64; omega
 
 section instr
-variable {s0 : IState} {c : EofCtx} {sec : List Nat} {i : Nat}
+variable {K : EofCtx} {s0 : IState} {c : EofCtx} {sec : List Nat} {i : Nat}
 
 /-- ordinary instructions after which execution never continues: no `ok` result at all -/
 theorem execTerm_sat (hb : Base s0) (I : Instr) (m : M Unit) (hm : execPure I = some m) (ho : isOrd I = true)
@@ -36,23 +36,23 @@ theorem ord_len (I : Instr) (ho : isOrd I = true) (sec : List Nat) (i : Nat) : i
 theorem ord_pure (I : Instr) (ho : isOrd I = true) : ∃ m, execPure I = some m := by
   cases I <;> (try (simp only [isOrd, Bool.false_eq_true] at ho)) <;> exact ⟨_, rfl⟩
 
-theorem pureE {m : M Unit} (h : Exec.Sat (m s0) (Halt s0) (fun _ s' => NextE s0 s')) :
-    GoodP (Halt s0) (NextE s0) (ActE s0) (.pure (m s0).toDone) :=
+theorem pureE {m : M Unit} (h : Exec.Sat (m s0) (Halt s0) (fun _ s' => NextE K s0 s')) :
+    GoodP (Halt s0) (NextE K s0) (ActE K s0) (.pure (m s0).toDone) :=
   .pure (toDoneP (fun _ hq => hq) h)
 
-theorem pureT (hs : StartE s0 c sec i) {m : M Unit}
+theorem pureT (hs : StartE K s0 c sec i) {m : M Unit}
     (h : Exec.Sat (m s0) (Halt s0) (fun _ s' => DoneT (· ∈ boundaries sec) s0 s')) :
-    GoodP (Halt s0) (NextE s0) (ActE s0) (.pure (m s0).toDone) :=
+    GoodP (Halt s0) (NextE K s0) (ActE K s0) (.pure (m s0).toDone) :=
   pureE (sat_mono h (fun _ _ hq => hs.nextT hq))
 
-theorem pure1 (hs : StartE s0 c sec i) (hn : i + 1 ∈ boundaries sec) {m : M Unit}
+theorem pure1 (hs : StartE K s0 c sec i) (hn : i + 1 ∈ boundaries sec) {m : M Unit}
     (h : Exec.Sat (m s0) (Halt s0) (fun _ s' => Done1 s0 s')) :
-    GoodP (Halt s0) (NextE s0) (ActE s0) (.pure (m s0).toDone) :=
+    GoodP (Halt s0) (NextE K s0) (ActE K s0) (.pure (m s0).toDone) :=
   pureE (sat_mono h (fun _ _ hq => hs.next1 hn hq))
 
 /-- one instruction at an instruction boundary of a well-formed container -/
-theorem execInstrE_good (hs : StartE s0 c sec i) (I : Instr) (hI : decode (sec.getD i 0) = I) :
-    GoodP (Halt s0) (NextE s0) (ActE s0) (execInstr I s0) := by
+theorem execInstrE_good (hs : StartE K s0 c sec i) (I : Instr) (hI : decode (sec.getD i 0) = I) :
+    GoodP (Halt s0) (NextE K s0) (ActE K s0) (execInstr I s0) := by
   obtain ⟨himm, hnext, hspec⟩ := instrOk_parts hI hs.instrOk
   have hb := hs.toBase
   have h := hs.rel
@@ -67,8 +67,8 @@ theorem execInstrE_good (hs : StartE s0 c sec i) (I : Instr) (hI : decode (sec.g
     · exact pureE (execTerm_sat hb I m hp ho ht)
     · rw [ord_len I ho] at hn
       exact pure1 hs hn (execOrd_sat hb I m hp ho)
-  · have hN1 : i + 1 ∈ boundaries sec → ∀ s', Done1 s0 s' → NextE s0 s' := fun hn _ hd => hs.next1 hn hd
-    have hA1 : i + 1 ∈ boundaries sec → ∀ a s', ActRel s0 a s' → ActE s0 a s' := fun hn _ _ hd => hs.act hn hd
+  · have hN1 : i + 1 ∈ boundaries sec → ∀ s', Done1 s0 s' → NextE K s0 s' := fun hn _ hd => hs.next1 hn hd
+    have hA1 : i + 1 ∈ boundaries sec → ∀ a s', ActRel s0 a s' → ActE K s0 a s' := fun hn _ _ hd => hs.act hn hd
     cases I <;> (try (simp only [isOrd, not_true_eq_false] at ho)) <;>
       (try (simp only [terminating, Bool.false_eq_true, false_or] at hnext)) <;>
       (try (simp only [instrLenOf] at hnext)) <;> (try (simp only [instrLenOf] at himm))
@@ -222,15 +222,16 @@ end instr
 
 /-! ## the loop -/
 
-theorem InvE.start {s : IState} (hi : InvE s) {c : EofCtx} {sec : List Nat} (he : s.eof = some c) (hok : CtxOk c)
+theorem InvE.start {K : EofCtx} {s : IState} (hi : InvE K s) {c : EofCtx} {sec : List Nat} (he : s.eof = some c) (hok : CtxOk c)
     (hsec : c.sections[c.curIdx]? = some sec) (hcode : s.code = sec) (hpc : s.pc ∈ boundaries sec) :
-    StartE { s with pc := s.pc + 1 } c sec s.pc :=
+    StartE K { s with pc := s.pc + 1 } c sec s.pc :=
   { toBase := { hi.toBase with }
-    isEof := hi.isEof, jt := hi.jt, eof := he, ok := hok, hsec := hsec, code := hcode, bdry := hpc, pc := rfl }
+    isEof := hi.isEof, jt := hi.jt, eof := he, ok := hok, hsec := hsec, code := hcode, bdry := hpc, pc := rfl,
+    static := hi.static c he }
 
-theorem stepOkE_of_doneGood {s : IState} {d : Done}
-    (hd : DoneGoodP (Halt { s with pc := s.pc + 1 }) (NextE { s with pc := s.pc + 1 })
-      (ActE { s with pc := s.pc + 1 }) d) : StepOkP InvE s d := by
+theorem stepOkE_of_doneGood {K : EofCtx} {s : IState} {d : Done}
+    (hd : DoneGoodP (Halt { s with pc := s.pc + 1 }) (NextE K { s with pc := s.pc + 1 })
+      (ActE K { s with pc := s.pc + 1 }) d) : StepOkP (InvE K) s d := by
   have hmeq : measure { s with pc := s.pc + 1 } = measure s := rfl
   cases hd with
   | next hn =>
@@ -246,7 +247,7 @@ theorem stepOkE_of_doneGood {s : IState} {d : Done}
 
 /-- one instruction of a well-formed EOF container: never a fault, `InvE` is kept, at least 1 gas is consumed when
 the frame continues -/
-theorem stepE_good : StepInv InvE := by
+theorem stepE_good (K : EofCtx) : StepInv (InvE K) := by
   intro s hi
   have hpc := hi.pc_lt
   obtain ⟨c, sec, he, hok, hsec, hcode, hb⟩ := hi.ctx
@@ -261,12 +262,12 @@ theorem stepE_good : StepInv InvE := by
   | pure hd => exact .pure (stepOkE_of_doneGood hd)
   | host hk => exact .host (fun r hr => stepOkE_of_doneGood (hk r hr))
 
-theorem runE_safe {η : Type} (o : Oracle η) (ho : OracleOk o) :
-    ∀ (fuel : Nat) (s : IState) (h : η), InvE s → RunSafe fuel s (run o fuel s h).1 :=
-  run_safeP invE_loop stepE_good o ho
+theorem runE_safe (K : EofCtx) {η : Type} (o : Oracle η) (ho : OracleOk o) :
+    ∀ (fuel : Nat) (s : IState) (h : η), InvE K s → RunSafe fuel s (run o fuel s h).1 :=
+  run_safeP (invE_loop K) (stepE_good K) o ho
 
-theorem reachE_inv {η : Type} (o : Oracle η) (ho : OracleOk o) {s0 : IState} {h0 : η}
-    (hi0 : InvE s0) {s : IState} {h : η} (hr : Reach o s0 h0 s h) : InvE s ∧ measure s ≤ measure s0 :=
-  reach_invP invE_loop stepE_good o ho hi0 hr
+theorem reachE_inv (K : EofCtx) {η : Type} (o : Oracle η) (ho : OracleOk o) {s0 : IState} {h0 : η}
+    (hi0 : InvE K s0) {s : IState} {h : η} (hr : Reach o s0 h0 s h) : InvE K s ∧ measure s ≤ measure s0 :=
+  reach_invP (invE_loop K) (stepE_good K) o ho hi0 hr
 
 end Revm.Proofs.Interp
